@@ -273,38 +273,69 @@ func c12Exec(input string) string {
 	return morassRunWork(parseMWork(f[1:]))
 }
 
+// c12Enumerate emits every schedule of the workload (up to quiescence) when they fit into capPer,
+// an evenly spread sample otherwise.
+func c12Enumerate(g *hx.Gen, c int, ac bool, ty string, ops []string, capPer int) {
+	var all [][]int
+	simEnumerate(newSim(c, ac, ops), nil, func(s []int) bool {
+		all = append(all, append([]int(nil), s...))
+		return len(all) < 200000
+	})
+	stride := 1
+	if len(all) > capPer {
+		stride = len(all)/capPer + 1
+	}
+	off := 0
+	if stride > 1 {
+		off = g.Intn(stride)
+	}
+	for i := off; i < len(all) && !g.Done(); i += stride {
+		g.Case(c12Line(c, ac, ty, ops, all[i]))
+	}
+}
+
 func c12Gen(g *hx.Gen) {
 	// the dangerous shape first: short last chunk, Finalise racing the only background writer
-	// (1) every interleaving of small workloads
+	// (1) every interleaving of small one-cycle workloads
 	type wl struct{ c, n int }
 	small := []wl{{1, 2}, {2, 3}, {1, 3}}
-	capPer := g.Scale(1200, 30000)
+	capPer := g.Scale(560, 30000)
 	for _, w := range small {
 		ty := "i"
 		if g.Chance(0.5) {
 			ty = "s"
 		}
 		ops := c12Workload(g, w.c, w.n, ty, w.n+1, 5)
-		var all [][]int
-		simEnumerate(newSim(w.c, false, ops), nil, func(s []int) bool {
-			all = append(all, append([]int(nil), s...))
-			return len(all) < 200000
-		})
-		// all of them when they fit in the budget, otherwise an evenly spread sample
-		stride := 1
-		if len(all) > capPer {
-			stride = len(all)/capPer + 1
-		}
-		off := 0
-		if stride > 1 {
-			off = g.Intn(stride)
-		}
-		for i := off; i < len(all) && !g.Done(); i += stride {
-			g.Case(c12Line(w.c, false, ty, ops, all[i]))
-		}
+		c12Enumerate(g, w.c, false, ty, ops, capPer)
 	}
-	// (2) random walks on larger workloads, (3) probes
-	n := g.Scale(900, 20000)
+	// (1b) every interleaving (or an evenly spread sample) of small multi-cycle histories: the
+	// writers of one cycle against the caller's Clear and the next cycle (what
+	// conc_history_sorted_multiset states)
+	type hist struct {
+		c  int
+		ac bool
+		cy [][3]int // pushes, pulls, clear
+	}
+	hists := []hist{
+		{1, false, [][3]int{{2, 1, 1}, {2, 3, 0}}},            // spill, partial drain, Clear; spill, drain
+		{2, false, [][3]int{{1, 0, 1}, {3, 4, 0}}},            // memory-only unpulled, Clear (takes the nil from pool); spill
+		{1, true, [][3]int{{2, 3, 0}, {2, 3, 0}}},             // closed by AutoClear at io.EOF; spill again
+		{2, false, [][3]int{{3, 4, 1}, {1, 2, 1}, {3, 1, 0}}}, // spill, memory-only, spill
+	}
+	capH := g.Scale(260, 20000)
+	for _, h := range hists {
+		ty := "i"
+		if g.Chance(0.5) {
+			ty = "s"
+		}
+		var ops []string
+		for _, cy := range h.cy {
+			ops = c11Cycle(g, ops, h.c, ty, cy[0], cy[1], cy[2] == 1, 5)
+		}
+		c12Enumerate(g, h.c, h.ac, ty, ops, capH)
+	}
+	// (2) random walks on larger workloads and histories of 1..4 cycles, (3) probes
+	n := g.Scale(750, 20000)
 	for k := 0; k < n && !g.Done(); k++ {
 		c := g.Pick(1, 2, 2, 3, 4)
 		chunks := g.Range(1, 4)
@@ -319,21 +350,33 @@ func c12Gen(g *hx.Gen) {
 		}
 		ac := g.Chance(0.3)
 		var ops []string
-		cycles := g.Pick(1, 1, 1, 2)
+		cycles := g.Pick(1, 1, 1, 2, 2, 3, 4)
 		for cy := 0; cy < cycles; cy++ {
 			pulls := cnt + 1
-			if cy < cycles-1 && g.Chance(0.3) {
-				pulls = g.Intn(cnt + 1)
+			drained := true
+			if cy < cycles-1 {
+				switch g.Intn(5) {
+				case 0:
+					pulls, drained = 0, false
+				case 1:
+					pulls, drained = g.Intn(cnt+1), false
+				case 2:
+					pulls, drained = cnt, false
+				}
 			}
-			ops = c11Cycle(g, ops, c, ty, cnt, pulls, cy < cycles-1, g.Pick(3, 8, 100))
-			cnt = g.Pick(chunks*c+last, c+1, 2*c)
+			clear := cy < cycles-1
+			if clear && ac && drained && g.Chance(0.6) {
+				clear = false // closed by AutoClear
+			}
+			ops = c11Cycle(g, ops, c, ty, cnt, pulls, clear, g.Pick(3, 8, 100))
+			cnt = g.Pick(chunks*c+last, c+1, 2*c, c11Count(g, c))
 		}
 		s := newSim(c, ac, ops)
 		bias := g.Pick(0, 1, 2, 3) // 0 uniform, 1 caller first, 2 writers first, 3 newest writer last
 		probe := g.Chance(0.15)
 		probeAt := g.Intn(40)
 		var sched []int
-		for steps := 0; steps < 400 && !s.quiescent(); steps++ {
+		for steps := 0; steps < 600 && !s.quiescent(); steps++ {
 			var en, blocked []int
 			for a := 0; a <= len(s.ws); a++ {
 				if s.clone().step(a) {
